@@ -628,8 +628,36 @@ macro_rules! configure {
         for e in &$cfg.client_accept {
             x = x.accept_compressed(e.tonic());
         }
-        x
+        // an application may hand out clones of a configured client: they behave like the original
+        match $crate::c02::client_clone_mode() {
+            1 => x.clone(),
+            2 => {
+                let y = x.clone();
+                drop(x);
+                y.clone()
+            }
+            _ => x,
+        }
     }};
+}
+
+thread_local! {
+    static CLIENT_CLONE_MODE: std::cell::Cell<u8> = const { std::cell::Cell::new(0) };
+}
+
+pub fn client_clone_mode() -> u8 {
+    CLIENT_CLONE_MODE.with(|c| c.get())
+}
+
+/// 0 = calls go through the configured client itself, 1 = through a clone, 2 = through a clone of
+/// a clone (drawn per run; reset by the run prelude)
+pub fn draw_client_clone_mode(sim: &Sim) {
+    let m = sim.weighted(&[3, 1, 1]) as u8;
+    CLIENT_CLONE_MODE.with(|c| c.set(m));
+}
+
+pub fn reset_client_clone_mode() {
+    CLIENT_CLONE_MODE.with(|c| c.set(0));
 }
 pub(crate) use configure;
 
@@ -658,6 +686,8 @@ fn run_calls<M: SimMsg, C: ClientOps<M>>(sim: &Sim, client: &mut C, handler: &Ha
 pub fn run(sim: &Sim, _idx: u64) {
     let svc = sim.weighted(&[5, 4, 1]);
     let comp = gen_comp_consistent(sim);
+    crate::rawcodec::draw_styles(sim);
+    draw_client_clone_mode(sim);
     crate::rawcodec::set_cfg(crate::rawcodec::RawCfg {
         enc_buffer: sim.pick(&[1usize, 64, 8192]),
         enc_yield: sim.pick(&[0usize, 64, 32768]),
